@@ -39,5 +39,6 @@ def convert_dep5(obj: ClickObj) -> None:
     text = toml_from_dep5(
         cast(ReuseDep5, project.global_licensing).dep5_copyright
     )
-    (project.root / "REUSE.toml").write_text(text)
+    # REUSE.toml is UTF-8, whatever the encoding of the locale.
+    (project.root / "REUSE.toml").write_text(text, encoding="utf-8")
     (project.root / ".reuse/dep5").unlink()
